@@ -130,23 +130,23 @@ theorem push_cnt (cfg : Cfg) (x : Ev) (s : St) : Cnt s (push cfg x s) := by
 theorem subscribe_fresh_outcome (cfg : Cfg) {s : St} (hi : Inv s) (hsub : s.subject = none) :
     ∃ u, u.panics = s.panics ∧
       ((FLive s.ngens s.nsubs u ∧ subscribe cfg s = liveDone s.nsubs s.ngens u) ∨
-       (FReset s.ngens s.nsubs u ∧ subscribe cfg s = resetDone s.ngens u) ∨
+       ((∃ k, SafePre cfg.flags (cfg.pre k) = false) ∧ FReset s.ngens s.nsubs u ∧ subscribe cfg s = resetDone s.ngens u) ∨
        (FLatch s.ngens s.nsubs u ∧ subscribe cfg s = latchDone s.ngens u)) := by
   obtain ⟨u0, k, hsim, he⟩ := subscribe_fresh_eq cfg hi hsub
   have hl := (flive_freshState cfg.conn hi hsub).sim hsim
   refine ⟨playPre cfg s.ngens (cfg.pre k) u0, ?_, ?_⟩
   · rw [(playPre_cnt cfg s.ngens (cfg.pre k) u0).panics, hsim.panics]; rfl
   · rw [he]
-    rcases playPre_live cfg (cfg.pre k) hl with h | h | h
+    rcases playPre_live cfg (cfg.pre k) hl with h | ⟨hns, h⟩ | h
     · exact Or.inl ⟨h, (finish_live cfg.flags h).1⟩
-    · exact Or.inr (Or.inl ⟨h, (finish_reset cfg.flags h).1⟩)
+    · exact Or.inr (Or.inl ⟨⟨k, hns⟩, h, (finish_reset cfg.flags h).1⟩)
     · exact Or.inr (Or.inr ⟨h, (finish_latch cfg.flags h).1⟩)
 
 theorem subscribe_ngens (cfg : Cfg) {s : St} (hi : Inv s) :
     (subscribe cfg s).ngens = if s.subject = none then s.ngens + 1 else s.ngens := by
   cases hsub : s.subject with
   | none =>
-    obtain ⟨u, _, h | h | h⟩ := subscribe_fresh_outcome cfg hi hsub
+    obtain ⟨u, _, h | ⟨_, h⟩ | h⟩ := subscribe_fresh_outcome cfg hi hsub
     · rw [h.2]; simp [liveDone, h.1.ngens]
     · rw [h.2]; simp [resetDone, h.1.ngens]
     · rw [h.2]; simp [latchDone, h.1.ngens]
@@ -575,5 +575,234 @@ theorem src_uniform (cfg : Cfg) {s : St} (hi : Inv s) (x : Ev) (k : Nat) (hk : k
       rw [‹∀ k, k < s.ngens → s.upLive k = false› g hg] at this
       cases this
     · simp [h0]
+
+/-! ### a source terminal on the live generation -/
+
+/-- the subjects' status and stored values are kept -/
+def ValKeep (s s' : St) : Prop :=
+  ∀ k, (s'.gens k).subj.status = (s.gens k).subj.status ∧ (s'.gens k).subj.buf = (s.gens k).subj.buf ∧
+       (s'.gens k).subj.last = (s.gens k).subj.last
+
+theorem ValKeep.refl (s : St) : ValKeep s s := fun _ => ⟨rfl, rfl, rfl⟩
+theorem ValKeep.trans {a b c : St} (h1 : ValKeep a b) (h2 : ValKeep b c) : ValKeep a c :=
+  fun k => ⟨(h2 k).1.trans (h1 k).1, (h2 k).2.1.trans (h1 k).2.1, (h2 k).2.2.trans (h1 k).2.2⟩
+theorem SubjKeep.vk {s s' : St} (h : SubjKeep s s') : ValKeep s s' := fun k => by rw [h k]; exact ⟨rfl, rfl, rfl⟩
+
+theorem foldl_vk {α : Type} (f : St → α → St) (hf : ∀ s a, ValKeep s (f s a)) (l : List α) (s : St) :
+    ValKeep s (l.foldl f s) := by
+  induction l generalizing s with
+  | nil => exact ValKeep.refl s
+  | cons a l ih => exact (hf s a).trans (ih (f s a))
+
+theorem dTerm_vk (fl : Flags) (i : Nat) (t : Ev) (s : St) : ValKeep s (dTerm fl i t s) := by
+  have h1 : ValKeep s (dDeliver i t s) := by
+    unfold dDeliver; split <;> exact fun _ => ⟨rfl, rfl, rfl⟩
+  have h2 : ∀ u : St, ValKeep u (dSubnUnsub fl i u) := by
+    intro u
+    unfold dSubnUnsub; split
+    · exact ValKeep.refl u
+    · have ha : ValKeep u (u.modSub i fun d => { d with done := true, delFin := none, tearFin := none }) := fun _ => ⟨rfl, rfl, rfl⟩
+      have hb : ∀ (o : Option Nat) (w : St), ValKeep w (runDel i o w) := by
+        intro o w; cases o
+        · exact ValKeep.refl w
+        · intro k; simp [runDel]; split <;> simp_all
+      have hc : ∀ (o : Option Nat) (w : St), ValKeep w (runTear fl i o w) := by
+        intro o w
+        match o with
+        | none => exact ValKeep.refl w
+        | some g' =>
+          simp only [runTear, teardownT]
+          have hz : ValKeep (decRef (casClose i w)) (zeroReset fl g' (decRef (casClose i w))) := by
+            unfold zeroReset; split
+            · exact (reset_sk _ _).vk
+            · exact ValKeep.refl _
+          have hcc : ValKeep w (decRef (casClose i w)) := by
+            intro k; unfold decRef casClose; split <;> exact ⟨rfl, rfl, rfl⟩
+          exact hcc.trans hz
+      exact (ha.trans (hb _ _)).trans (hc _ _)
+  exact h1.trans (h2 _)
+
+/-- **after the source terminates**: nobody is left open, the upstream subscription is gone, and
+    the shared pair is cleared exactly when the configuration resets on that terminal; otherwise
+    the generation is latched with the terminal stored and the connector's values untouched -/
+theorem src_terminal (cfg : Cfg) {s : St} {g : Nat} (t : Ev) (ht : t.isTerminal = true) (hi : Inv s)
+    (hsub : s.subject = some g) (ha : GenActive s g) :
+    (step cfg s (.src t)).live = 0 ∧ openSubs (step cfg s (.src t)) = [] ∧
+    (step cfg s (.src t)).subject = (if cfg.flags.resetsOn t then none else some g) ∧
+    (step cfg s (.src t)).total = s.total ∧
+    (cfg.flags.resetsOn t = false → GenLatched (step cfg s (.src t)) g ∧
+      ((step cfg s (.src t)).gens g).subj.status = Status.ofTerminal t ∧
+      ((step cfg s (.src t)).gens g).subj.buf = (s.gens g).subj.buf) := by
+  have hstep : step cfg s (.src t) = pTerm cfg g t s := by
+    show push cfg t s = _
+    rcases push_eq cfg t hi with ⟨g', hg', _, he⟩ | ⟨hno, _⟩
+    · rw [hsub] at hg'
+      have : g' = g := (Option.some.inj hg').symm
+      subst this
+      rw [he]
+      cases t with
+      | next v => simp [Ev.isTerminal] at ht
+      | error e => rfl
+      | complete => rfl
+    · have hg := (hi.cur g hsub).1
+      have := (upLive_iff hi g hg).mpr ⟨hsub, ha⟩
+      rw [hno g hg] at this; cases this
+  rw [hstep]
+  obtain ⟨hinv, hng, _, hut, _, hsj⟩ := inv_pTerm (cfg := cfg) t ht hi hsub ha
+  have hnotact : ¬ ∃ g', (pTerm cfg g t s).subject = some g' ∧ GenActive (pTerm cfg g t s) g' := by
+    intro ⟨g', hg', ha'⟩
+    rw [hsj] at hg'
+    split at hg'
+    · cases hg'
+    · have : g' = g := (Option.some.inj hg').symm
+      subst this
+      have := ha'.upTorn
+      rw [hut] at this; cases this
+  have hno : openSubs (pTerm cfg g t s) = [] := by
+    cases hs' : (pTerm cfg g t s).subject with
+    | none => exact (hinv.idle hs').2.2
+    | some g' =>
+      rcases (hinv.cur g' hs').2 with ha' | hl'
+      · exact absurd ⟨g', hs', ha'⟩ hnotact
+      · exact hl'.noOpen
+  refine ⟨live_of_not_active hinv hnotact, hno, hsj, by rw [total_eq_ngens hinv, total_eq_ngens hi, hng], ?_⟩
+  intro hnr
+  have hs' : (pTerm cfg g t s).subject = some g := by rw [hsj, hnr]; rfl
+  have hlat : GenLatched (pTerm cfg g t s) g := by
+    rcases (hinv.cur g hs').2 with ha' | hl'
+    · exact absurd ⟨g, hs', ha'⟩ hnotact
+    · exact hl'
+  refine ⟨hlat, ?_⟩
+  -- the subject's own state through pTerm
+  have hopen : ((pDecide cfg.flags g t (s.modGen g fun x => { x with pStatus := t.code })).gens g).subj.status = Status.open := by
+    rw [pDecide_sk]; simp [ha.isOpen]
+  have e : pTerm cfg g t s = pSubnUnsub g (subjClear g (bcastTerm cfg.flags g t
+      ((pDecide cfg.flags g t (s.modGen g fun x => { x with pStatus := t.code })).modGen g
+        fun x => { x with subj := { x.subj with status := Status.ofTerminal t } }))) := by
+    simp only [pTerm, if_pos ha.pStatus, subjTerm, hopen]
+  have hfinal : ∀ S3 : St, ((pSubnUnsub g (subjClear g (bcastTerm cfg.flags g t S3))).gens g).subj.status = (S3.gens g).subj.status ∧
+      ((pSubnUnsub g (subjClear g (bcastTerm cfg.flags g t S3))).gens g).subj.buf = (S3.gens g).subj.buf := by
+    intro S3
+    have hb : ValKeep S3 (bcastTerm cfg.flags g t S3) :=
+      foldl_vk (fun s i => dTerm cfg.flags i t s) (fun s i => dTerm_vk cfg.flags i t s) _ S3
+    rw [pSubnUnsub_sk g _ g]
+    simp [subjClear]
+    exact ⟨(hb g).1, (hb g).2.1⟩
+  rw [e]
+  obtain ⟨hf1, hf2⟩ := hfinal ((pDecide cfg.flags g t (s.modGen g fun x => { x with pStatus := t.code })).modGen g
+        fun x => { x with subj := { x.subj with status := Status.ofTerminal t } })
+  rw [hf1, hf2]
+  simp [pDecide_sk cfg.flags g t _ g]
+
+/-! ### the reference count; the nil dereference and what it leaks -/
+
+/-- a step leaks a reference (nil dereference) only in a `sub` event that creates a generation whose
+    synchronous prefix is not `SafePre` -/
+theorem panics_step (cfg : Cfg) {s : St} (hi : Inv s) (e : Event) :
+    (step cfg s e).panics = s.panics ∨
+    ((step cfg s e).panics = s.panics + 1 ∧ e = .sub ∧ s.subject = none ∧ ∃ k, SafePre cfg.flags (cfg.pre k) = false) := by
+  cases e with
+  | sub =>
+    show (subscribe cfg s).panics = _ ∨ _
+    cases hsub : s.subject with
+    | none =>
+      obtain ⟨u, hu, h | ⟨hns, h⟩ | h⟩ := subscribe_fresh_outcome cfg hi hsub
+      · left; rw [h.2]; simp [liveDone, hu]
+      · right; refine ⟨?_, rfl, rfl, hns⟩; show (subscribe cfg s).panics = _; rw [h.2]; simp [resetDone, hu]
+      · left; rw [h.2]; simp [latchDone, hu]
+    | some g =>
+      left
+      rcases (hi.cur g hsub).2 with ha | hl
+      · rw [(subscribe_join_active cfg hi hsub ha).panics]; rfl
+      · obtain ⟨c, _, hsim⟩ := subscribe_join_latched cfg hi hsub hl
+        rw [hsim.panics]; rfl
+  | unsub i =>
+    left
+    simp only [step]
+    split
+    · exact (dUnsubscribe_only cfg.flags i s).panics
+    · rfl
+  | src x => left; exact (push_cnt cfg x s).panics
+
+theorem panics_run_safe (cfg : Cfg) (hsafe : cfg.Safe) (evs : List Event) : (run cfg evs).panics = 0 := by
+  suffices h : ∀ (s : St), Inv s → s.panics = 0 → (evs.foldl (step cfg) s).panics = 0 from h {} Inv.init rfl
+  induction evs with
+  | nil => intro s _ h; exact h
+  | cons e es ih =>
+    intro s hi hp
+    apply ih (step cfg s e) (inv_step cfg hi e)
+    rcases panics_step cfg hi e with h | ⟨_, _, _, k, hk⟩
+    · rw [h]; exact hp
+    · rw [hsafe k] at hk; cases hk
+
+/-! ### nobody else's trace is touched by `sub` / `unsub` -/
+
+theorem unsub_traces (cfg : Cfg) (s : St) (i k : Nat) : ((step cfg s (.unsub i)).subs k).trace = (s.subs k).trace := by
+  simp only [step]
+  split
+  · by_cases hki : k = i
+    · subst hki
+      unfold dUnsubscribe
+      split
+      · rw [dSubnUnsub_trace]; simp
+      · rfl
+    · rw [(dUnsubscribe_only cfg.flags i s).other k hki]
+  · rfl
+
+/-- a purely hot source: the creator of a generation receives only what a brand-new connector hands
+    out (nothing, or behavior's initial value): a *fresh* execution; nobody else is touched -/
+theorem fresh_hot_trace (cfg : Cfg) (hhot : cfg.Hot) {s : St} (hi : Inv s) (hsub : s.subject = none) :
+    ((step cfg s .sub).subs s.nsubs).trace = Spec.joined cfg.conn (Subj.new cfg.conn) ∧
+    ((step cfg s .sub).subs s.nsubs).status = 0 ∧
+    (∀ k, k ≠ s.nsubs → (step cfg s .sub).subs k = s.subs k) ∧
+    (step cfg s .sub).subject = some s.ngens ∧ (step cfg s .sub).live = 1 := by
+  show ((subscribe cfg s).subs s.nsubs).trace = _ ∧ ((subscribe cfg s).subs s.nsubs).status = 0 ∧
+    (∀ k, k ≠ s.nsubs → (subscribe cfg s).subs k = s.subs k) ∧ (subscribe cfg s).subject = some s.ngens ∧ (subscribe cfg s).live = 1
+  have hnn : needsNew s = true := (needsNew_iff hi).mpr hsub
+  have hnn' : needsNew (newSub s) = true := hnn
+  have e1 : r1 cfg (newSub s) =
+      { (newSub s) with refCount := s.refCount + 1,
+                        gens := (fun k => if k = s.ngens then { subj := Subj.new cfg.conn } else s.gens k),
+                        ngens := s.ngens + 1, subject := some s.ngens, sourceSubscription := some s.ngens } := by
+    unfold r1
+    rw [if_pos hnn']
+    rfl
+  have h0 : ((r1 cfg (newSub s)).subs s.nsubs).status = 0 := by rw [e1]; simp [newSub]
+  have eR := subjReplay_eq cfg.conn s.ngens s.nsubs (r1 cfg (newSub s)) h0
+  have h0R : ((subjReplay cfg.conn s.ngens s.nsubs (r1 cfg (newSub s))).subs s.nsubs).status = 0 := by rw [eR]; simp [h0]
+  have eL := subjLast_eq cfg.conn s.ngens s.nsubs _ h0R
+  have hopen : ((subjReplay cfg.conn s.ngens s.nsubs (r1 cfg (newSub s))).gens s.ngens).subj.status = Status.open := by
+    rw [eR, e1]; simp [subjNew_open]
+  have hsubscribe : subscribe cfg s = r3 cfg s.nsubs s.ngens (subjRegister s.ngens s.nsubs
+      (subjLast cfg.conn s.ngens s.nsubs (subjReplay cfg.conn s.ngens s.nsubs (r1 cfg (newSub s))))) := by
+    simp only [subscribe, hnn, subjSubscribe, hopen]
+    simp
+  -- the outcome is the live one: a hot prefix cannot terminate
+  obtain ⟨u0, k, hsim, he⟩ := subscribe_fresh_eq cfg hi hsub
+  have hl := (flive_freshState cfg.conn hi hsub).sim hsim
+  have hpre : playPre cfg s.ngens (cfg.pre k) u0 = u0 := by rw [hhot k]; rfl
+  obtain ⟨hfe, hfi, hfa, hfs⟩ := finish_live cfg.flags hl
+  have hfinal : subscribe cfg s = liveDone s.nsubs s.ngens u0 := by rw [he, hpre, hfe]
+  have hlive : (subscribe cfg s).live = 1 := by
+    have hinv := subscribe_cases cfg hi
+    rw [he, hpre] at hinv ⊢
+    exact live_of_active hinv hfs hfa
+  have hsubj : (subscribe cfg s).subject = some s.ngens := by rw [he, hpre]; exact hfs
+  refine ⟨?_, ?_, ?_, hsubj, hlive⟩
+  · rw [hsubscribe, eL, eR, e1]
+    unfold r3 srcSubscribe
+    rw [hhot]
+    have hbuf : (Subj.new cfg.conn).buf = [] := by cases cfg.conn <;> rfl
+    cases hc : cfg.conn <;>
+      simp [playPre, upAddTeardown, r3tail, addTeardown, subjRegister, newSub, Spec.joined, Subj.new] <;>
+      (repeat' split) <;> simp_all [Subj.new]
+  · rw [hfinal]
+    simp [liveDone]
+    exact hl.status
+  · intro k' hk'
+    rw [hsubscribe, eL, eR, e1]
+    unfold r3 srcSubscribe
+    rw [hhot]
+    simp [playPre, upAddTeardown, r3tail, addTeardown, subjRegister, newSub, hk']
 
 end Ro.Share
